@@ -135,7 +135,7 @@ def op_extend_atoms(a, m, u):
     other = Atoms(atype=sa([t]) if sx.symbolic_mode() else np.array([t]), pos=sa([p]), z=sa([z]))      # differing property set: has z, lacks f/q
     b = a.extend(other)
     mb = m.copy()
-    for r in mb.rows: r['z'] = 0.0
+    for r in mb.rows: r.setdefault('z', 0.0)       # existing atoms get zeros only for properties they did not have
     new = {k: ([0.0] * len(v) if isinstance(v, list) else 0) for k, v in m.rows[0].items()}
     new.update(atype=t, pos=list(p), z=z)
     mb.rows.append(new)
